@@ -52,6 +52,8 @@ pub enum K {
     /// `FromIterator` over a long sequence (every key six times, interleaved, not sorted by
     /// length, alternating representations): the last occurrence of every key wins
     FromIterBig,
+    /// `dst.clone_from(&map)` where `dst` is a map that has released slots; `dst` replaces the map
+    CloneFrom,
 }
 
 #[derive(Clone, Copy, Debug, PartialEq, Eq, Hash, PartialOrd, Ord)]
@@ -64,7 +66,7 @@ pub struct Op {
     pub arg: u32,
 }
 
-pub const ALL_KINDS: [K; 26] = [
+pub const ALL_KINDS: [K; 27] = [
     K::Insert,
     K::EntryInsert,
     K::EntryOrInsert,
@@ -91,6 +93,7 @@ pub const ALL_KINDS: [K; 26] = [
     K::RecollectRev,
     K::FromIterDup,
     K::FromIterBig,
+    K::CloneFrom,
 ];
 
 pub fn kind_from_name(name: &str) -> Option<K> {
@@ -605,6 +608,19 @@ pub fn apply<P: PType>(map: &mut PrefixMap<P, u32>, model: &mut Model, w: &Walk,
             }
             *map = seq.into_iter().collect();
         }
+        K::CloneFrom => {
+            // a target with two released slots and one live entry
+            let mut dst: PrefixMap<P, u32> = PrefixMap::new();
+            let ks = &uni.keys;
+            for (i, k) in ks.iter().enumerate().take(4) {
+                dst.insert(mkp(*k), 90_000 + i as u32);
+            }
+            for k in ks.iter().take(4).skip(1) {
+                dst.remove(&mkp::<P>(*k));
+            }
+            dst.clone_from(map);
+            *map = dst;
+        }
         K::FromIterBig => {
             let old = std::mem::take(map);
             let n = old.len();
@@ -735,7 +751,7 @@ pub fn enumerate_ops(uni: &Universe, model: &Model, alpha: Alphabet, rep_mode: u
         }
     }
     if alpha == Alphabet::Full {
-        for kind in [K::IterMutWrite, K::ValuesMutWrite, K::CloneSelf, K::Recollect, K::RecollectRev, K::FromIterDup, K::FromIterBig] {
+        for kind in [K::IterMutWrite, K::ValuesMutWrite, K::CloneSelf, K::CloneFrom, K::Recollect, K::RecollectRev, K::FromIterDup, K::FromIterBig] {
             v.push(Op { kind, key: 0, rep: 0, arg: 0 });
         }
     } else if alpha == Alphabet::Canonical {
